@@ -270,12 +270,13 @@ def main(argv=None):
     # ---- evidence
     if not a.only:
         per_obl = []
-        for n in names:
-            rs = by_name[n]
+        for n in sorted(set(names) | set(conc_counts)):
+            rs = by_name.get(n, [])
             per_obl.append({"name": n, "instances": len(rs), "proved": sum(1 for r in rs if r["status"] == "proved"),
                             "refuted": sum(1 for r in rs if r["status"].startswith("refuted")), "unknown": sum(1 for r in rs if r["status"] == "unknown"),
                             "backends": sorted({r["backend"] for r in rs}), "solver_wall_s": round(sum(r["wall"] for r in rs), 3),
-                            "runtime_checks_on_real_code": conc_counts.get(n, 0), "known_finding": n in known})
+                            "runtime_checks_on_real_code": conc_counts.get(n, 0), "known_finding": n in known,
+                            "decided_by": "proof" if rs else "bounded run-time check only (never counted as proved)"})
         level = getattr(mod, "LEVEL", "proof")
         if n_dis < n_obl and level == "proof":
             level = "other"
